@@ -67,6 +67,8 @@ fn profile_for(id: &str, tier: Tier, ctx: &Ctx) -> SProfile {
             }
         }
         "C01" => {
+            // the Libtest pipelines `print!` Log events to the worker's stdout (the protocol pipe)
+            p.p_logs = 0;
             p.p_retry = 55;
             p.p_hook_fail = 15;
             p.outcome_w = [55, 14, 14, 6, 0];
